@@ -1155,3 +1155,22 @@ def _m_zero_der(mod):
         return False
 
     return mod if replace_in_func(mod, "Model._simplify_once", edit) else None
+
+
+@SPEC.mutant("sum-form constant not registered", MODEL, "R15.15", "registration as a constant")
+def _m_constant_not_registered(mod):
+    def edit(fn):
+        for st in ast.walk(fn):
+            if isinstance(st, ast.If) and "is_op(ca.OP_SUB)" in norm(st.test) and st.orelse:
+                parent_lists = [b for b in ast.walk(fn) for f_ in ("body", "orelse") if isinstance(getattr(b, f_, None), list) and st in getattr(b, f_)]
+                for b in parent_lists:
+                    for f_ in ("body", "orelse"):
+                        lst = getattr(b, f_, None)
+                        if isinstance(lst, list) and st in lst:
+                            i = lst.index(st)
+                            if i + 1 < len(lst) and "self.constants.append" in norm(lst[i + 1]):
+                                st.body.append(lst.pop(i + 1))
+                                return True
+        return False
+
+    return mod if replace_in_func(mod, "Model._simplify_once", edit) else None
